@@ -1,7 +1,30 @@
-// anyhow::Result / anyhow::Error: the error value is opaque (its text is not part of any contract)
+// anyhow::Result / Error / Context / anyhow!: the error value is opaque (its text is not part of any contract)
 pub mod anyhow {
     use vstd::prelude::*;
     #[verifier::external_body]
     pub struct Error { x: u8 }
+    impl core::fmt::Debug for Error {
+        #[verifier::external_body]
+        fn fmt(&self, f: &mut core::fmt::Formatter<'_>) -> core::fmt::Result { unimplemented!() }
+    }
     pub type Result<T> = core::result::Result<T, Error>;
+
+    /// what `anyhow!(..)` becomes under T9: some error value
+    #[verifier::external_body]
+    pub fn anyhow() -> Error { unimplemented!() }
+
+    /// anyhow::Context for Option: Some(x) -> Ok(x), None -> Err(context)
+    pub trait Context<T> {
+        fn with_context<F: FnOnce() -> String>(self, f: F) -> (r: Result<T>);
+    }
+    impl<T> Context<T> for Option<T> {
+        #[verifier::external_body]
+        fn with_context<F: FnOnce() -> String>(self, f: F) -> (r: Result<T>)
+            ensures
+                match self { Some(x) => r == Ok::<T, Error>(x), None => r is Err },
+        { unimplemented!() }
+    }
 }
+/// what `format!(..)` becomes under T9: some string
+#[verifier::external_body]
+pub fn __fmt_opaque() -> String { unimplemented!() }
